@@ -141,6 +141,16 @@ FIXED = [
     ("rarenad", None, ["2", "n:8", "n:8", "n:8", "d:2", "d:1", "d:0"]),
 ]
 
+# former findings, now repaired: these histories (with the refusal where it used to hurt) must be clean
+REGRESSION = [
+    ("arena", 0, ["2"]),                                   # K8: never-used allocator, next allocation refused
+    ("map", 1, ["a1"]), ("map", 2, ["a1"]),                # K8: ~XalanMap of the copy of an empty map
+    ("map", 26, ["i1:5", "a1", "e1:27", "i0:36", "i0:5", "a1", "i0:5"]),   # K8 inside operator=
+    ("map", 5, ["i0:1", "i0:2"]),                          # K23: refused bucket push_back
+    ("rarena", 5, ["2", "n:8", "n:8"]), ("rarena", 5, ["2", "n:8", "n:8", "n:8"]),   # K-new-3
+    ("list", None, ["em0"]), ("list", None, ["cl0"]),
+]
+
 NO_MODEL = ("rarena", "rarenad")
 
 
@@ -160,6 +170,10 @@ def make_cases(ctx, n_rand):
     for k, (fam, _, ops) in enumerate(base):
         cases.append(("c%d" % k, fam, None, ops))
     return cases
+
+
+def regression_cases():
+    return [("g%d" % k, fam, fuse, ops) for k, (fam, fuse, ops) in enumerate(REGRESSION)]
 
 
 def with_fuses(ctx, cases, res_impl, per_case):
@@ -283,7 +297,7 @@ def oracle_container(c, line):
     if any(s[0] == "TERMINATE" for s in segs):
         if fuse is None:
             return [(None, "std::terminate without any injected refusal")]
-        return [("K8", "a destructor reached from an operation (the temporary of operator=) asked the manager for memory and was refused: std::terminate")]
+        return [("K8", "REGRESSION of the K8 repair: a destructor reached from an operation (the temporary of operator=) asked the manager for memory and was refused: std::terminate")]
     if any(s[0] == "CRASH" for s in segs):
         if fuse is not None and fam.startswith("rarena"):
             return [("K-new-3", "crash after an object constructor threw between allocateBlock and commitAllocation")]
@@ -303,11 +317,11 @@ def oracle_container(c, line):
     if fuse is None and threw:
         res.append((None, "operation %d threw although no refusal was injected" % threw[0]))
     if dt:
-        res.append(("K8", "the manager was asked for memory inside a destructor and refused (std::terminate in C++11)"))
+        res.append(("K8", "REGRESSION of the K8 repair: the manager was asked for memory inside a destructor and refused (std::terminate in C++11)"))
     else:
         dtor_allocs = [s for s in segs if s[0] == "Dok" and any(e[0] == "A" for e in s[1])]
-        if dtor_allocs and fam in ("vec", "list"):
-            res.append((None, "a %s destructor allocated" % fam))
+        if dtor_allocs:
+            res.append((None, "a %s destructor called the manager's allocate" % fam))
     if out != 0 and not dt:
         if fuse is None and fam == "rarenad":
             res.append(("K-new-6", "%d blocks never released by a ReusableArenaAllocator(destroyBlocks=true)" % out))
@@ -405,7 +419,7 @@ def run(ctx):
     n_rand, per_case = (40, 6) if not ctx.thorough else (300, 40)
     cases = make_cases(ctx, n_rand)
     res_i = run_containers(ctx, impl, model, sizes, cases, corr, orc)
-    faults = with_fuses(ctx, cases, res_i, per_case)
+    faults = with_fuses(ctx, cases, res_i, per_case) + regression_cases()
     run_containers(ctx, impl, model, sizes, faults, corr, orc)
     ctx.cov["samples"] = [case_line(c) for c in cases[:3] + faults[:5]]
     ctx.cov["distinct_nontrivial"] = len({(c[1], c[2], tuple(c[3])) for c in cases + faults if len(c[3]) > 1})
